@@ -62,6 +62,9 @@ def check_C01():
                         ["proofs/C01_sim.v", "proofs/C01_ops.v", "proofs/C07_range.v", "proofs/C12_twins.v",
                          "proofs/C01_hist.v", "proofs/SpecExec_sound.v", "Base.v"], cov)
     cache_seq_part(ctx, "C01", cov, N(ctx, 1500, 30000), broken)
+    # "never dropped by internal table resizing": the cache models run over SpecMap; that the Go tables
+    # behave as SpecMap is C11, whose correspondence is therefore part of this check too
+    table_part(ctx, "C01", cov, N(ctx, 80, 1200), [])
     cov["rule"] = ("cases: constructor variant x 5..60 calls over <=6 keys, TTL classes incl. sentinels +-1ns, clock advances aimed at live expiry instants (e-1, e, e+1); "
                    "each case runs on the Go implementation (virtual clock) and on the extracted Coq models; every answer is also tested by the extracted specification checker")
     return ctx.finish(cov, ["clock frozen within a call, monotone between calls (vclock)", "user functions/visitors from the named family of coq/Exec.v"])
@@ -154,6 +157,12 @@ def check_C06():
     broken = proof_part(ctx, "props/C06.v", ["proofs/C06_seq.v", "proofs/C06_hist.v", "proofs/C12_twins.v", "proofs/C01_ops.v"], cov)
     res = cache_seq_part(ctx, "C06", cov, N(ctx, 1200, 20000), broken, dense=True)
     law_part(ctx, "C06", cov, res)
+    # removals made by the janitor: real time, callback swapped after construction in half of the cases
+    native = run_native(ctx, "janitor")
+    cov["native_janitor"] = native.get("summary")
+    for prob in native.get("problems", [])[:3]:
+        ctx.violation("janitor-%d" % prob["n"], dict(check="native/janitor (real time): ledger of the callback in force vs entries removed by the janitor", observed=prob["detail"]),
+                      failing_input=True, what=prob["what"])
     cov["rule"] = "dense CORR-cache-seq cases (physical snapshot before every removing call); callbacks compared with the model's events and with the entries the snapshot says were removed; callbacks swapped / nil mid-life"
     return ctx.finish(cov, ["sequential histories here; interleavings: see the concurrent part when registered"])
 
